@@ -165,6 +165,7 @@ def phases(tier):
   big = tier == 'thorough'
   kw = c01.model_kw(tier)
   kw['collide_names'] = False
+  kw['ops'] = G.ALL_OPS + ['GATE']   # a BOOL tensor, also through RESHAPE
   return [
       {'name': 'pipeline', 'kind': 'hyp',
        'strategy': lambda: engine.cases(model_kw=kw, allow_skip=False),
